@@ -196,7 +196,7 @@ def frames_clause(model, rep, funcs):
                 break
         ok, det = Matcher(g).all_of((pre0 or ["$dz, $dy, $dx = center",
                                      "$t0 = np.array([[1.0, 0.0, 0.0, $dz], [0.0, 1.0, 0.0, $dy], [0.0, 0.0, 1.0, $dx], [0.0, 0.0, 0.0, 1.0]], ...)"]) + [
-                                     "$t1 = _eyes(len(rotator))", "$t1[:, :3, 3] = -output_center", "$r = _eyes(len(rotator))", "$r[:, :3, :3] = rotator.as_matrix()",
+                                     "$n = len(rotator)", "$t1 = _eyes($n)", "$t1[:, :3, 3] = -output_center", "$r = _eyes($n)", "$r[:, :3, :3] = rotator.as_matrix()",
                                      "return np.einsum('ij,njk,nkl->nil', $t0, $r, $t1)"])
         try:
             ey = model.func(S + "_eyes")
